@@ -252,7 +252,7 @@ def _parse_rvalue(s):
         if m and not s.startswith('const "'):
             return ('cast', parse_operand(m.group(1)), m.group(2), m.group(3))
         return ('use', parse_operand(s))
-    m = re.match(r'^&(mut |raw const |raw mut |fake shallow |fake )?(.*)$', s, re.S)
+    m = re.match(r'^&(mut |raw const \(fake\) |raw mut \(fake\) |raw const |raw mut |fake shallow |fake )?(.*)$', s, re.S)
     if m and not s.startswith('&&'):
         return ('ref', parse_place(m.group(2)), (m.group(1) or '').strip())
     m = re.match(r'^(\w+)\((.*)\)$', s, re.S)
@@ -1194,8 +1194,23 @@ class Engine:
                 raise MirError(f'inline depth {self.max_depth} exceeded at {fn}')
             return self.run_function(st, target, call.args)
         if target is not None and not isinstance(target, tuple):
+            # a repository helper that is handed a model container by mutable reference (e.g. a loop extracted into a private function) cannot be summarised:
+            # it is executed from its own MIR, like the code it was extracted from
+            if self._mut_container_arg(st, call.args) and len(st.frames) < self.max_depth:
+                return self.run_function(st, target, call.args)
             self.repo_callees[target.name] = target          # a repository function left uninterpreted here: obligations may want to explore it on its own
         return self.uninterpreted(st, call)
+
+    def _mut_container_arg(self, st, args):
+        for a in args:
+            if isinstance(a, Ref) and a.mut:
+                try:
+                    tgt = self.read(st, a.loc, a.path)
+                except (MirError, IndexError):
+                    continue
+                if isinstance(tgt, (SeqV, MapV, IterV)):
+                    return True
+        return False
 
     def _ambiguous(self, fn, target):
         raise MirError(f'ambiguous callee {fn}: ' + ', '.join(f.name for f in target[1])[:300])
